@@ -7,6 +7,7 @@ import (
 	"context"
 	"errors"
 	"fmt"
+	"io"
 	"math/rand"
 	"net"
 	"runtime"
@@ -60,12 +61,79 @@ func register() {
 
 // Params of one chaos run.
 type Params struct {
-	Seed      int64
-	Clients   int
-	Ops       int
-	Procs     int
-	HalfOpen  bool // include connections that never send CONNECT / get rejected
+	Seed       int64
+	Clients    int
+	Ops        int
+	Procs      int
+	HalfOpen   bool // include connections that never send CONNECT / get rejected
 	HeavyYield bool
+	Stalled    int `json:",omitempty"` // v5 consumers that stop reading, are flooded and then displaced
+}
+
+// stallConn is a connection whose reader can be stopped for good (the peer's writes then block).
+type stallConn struct {
+	net.Conn
+	gate chan struct{}
+	once sync.Once
+}
+
+func (g *stallConn) Read(p []byte) (int, error) {
+	select {
+	case <-g.gate:
+		select {} // never reads again; the goroutine ends with the process
+	default:
+	}
+	return g.Conn.Read(p)
+}
+
+// stalledConsumer: a v5 subscriber stops reading and is flooded until the broker's write loop is blocked and
+// its channel is full; then its client id is taken over. The take-over must be answered in bounded time, and
+// Stop must still get rid of everything.
+func (c *chaos) stalledConsumer(i int, wg *sync.WaitGroup) {
+	defer wg.Done()
+	id := fmt.Sprintf("stalled-%d", i)
+	raw, err := net.Dial("tcp", c.b.Addr)
+	if err != nil {
+		return
+	}
+	g := &stallConn{Conn: raw, gate: make(chan struct{})}
+	cl := wire.New(id, g, mqttx.V5)
+	if ack, err := cl.Connect(&mqttx.Packet{ClientID: id, CleanStart: true}, reqTimeout); err != nil || ack.Code != 0 {
+		raw.Close()
+		return
+	}
+	c.mu.Lock()
+	c.stalled = append(c.stalled, raw)
+	c.mu.Unlock()
+	if _, err := cl.Subscribe([]mqttx.Sub{{Filter: "stall/" + id, QoS: 0}}, 0, reqTimeout); err != nil {
+		return
+	}
+	close(g.gate)
+	big := make([]byte, 64<<10)
+	for k := 0; k < 160 && atomic.LoadInt32(&c.stopped) == 0; k++ {
+		c.b.Srv.Publisher().Publish(&gmqtt.Message{Topic: "stall/" + id, Payload: big, QoS: 0})
+	}
+	c.op("stalled_consumer_flooded")
+	time.Sleep(20 * time.Millisecond)
+	if atomic.LoadInt32(&c.stopped) != 0 {
+		return
+	}
+	nc, err := wire.Dial(id+"-b", c.b.Addr, mqttx.V5)
+	if err != nil {
+		return
+	}
+	ack, err := nc.Connect(&mqttx.Packet{ClientID: id, CleanStart: true}, reqTimeout)
+	c.op("stalled_consumer_takeover")
+	if err == wire.ErrTimeout && atomic.LoadInt32(&c.stopped) == 0 {
+		c.unanswered("CONNECT displacing the stalled consumer " + id)
+	}
+	if err == nil && ack.Code == 0 {
+		c.mu.Lock()
+		c.conns = append(c.conns, nc)
+		c.mu.Unlock()
+	} else {
+		nc.Close()
+	}
 }
 
 type chaos struct {
@@ -76,6 +144,7 @@ type chaos struct {
 	fs      []finding
 	ops     map[string]int64
 	conns   []*wire.Client // every connection that completed CONNECT
+	stalled []net.Conn     // raw sockets of the stalled consumers (their wire reader has stopped)
 	stopped int32
 }
 
@@ -340,12 +409,24 @@ func runChaos(r *monitor.Run, p Params) {
 		wg.Add(1)
 		go c.apiCaller(i, &wg)
 	}
+	var swg sync.WaitGroup
+	for i := 0; i < p.Stalled; i++ {
+		swg.Add(1)
+		go c.stalledConsumer(i, &swg)
+	}
 	// let the traffic run for most of its operations, then stop the broker while it is still flowing
 	done := make(chan struct{})
 	go func() { wg.Wait(); close(done) }()
 	select {
 	case <-done:
 	case <-time.After(time.Duration(300+p.Ops/4) * time.Millisecond):
+	}
+	// the stalled consumers have been displaced (or the attempt has been given up) before the broker is stopped
+	sdone := make(chan struct{})
+	go func() { swg.Wait(); close(sdone) }()
+	select {
+	case <-sdone:
+	case <-time.After(reqTimeout + 20*time.Second):
 	}
 	ctx, cancel := context.WithTimeout(context.Background(), 20*time.Second)
 	t0 := time.Now()
@@ -384,6 +465,16 @@ func runChaos(r *monitor.Run, p Params) {
 		if !cl.WaitEOF(3 * time.Second) {
 			open++
 		}
+	}
+	// the stalled consumers read again now, directly from the socket: whatever is buffered, then the end
+	for _, sc := range c.stalled {
+		_ = sc.SetReadDeadline(time.Now().Add(5 * time.Second))
+		if _, err := io.Copy(io.Discard, sc); err != nil {
+			if ne, ok := err.(net.Error); ok && ne.Timeout() {
+				open++
+			}
+		}
+		sc.Close()
 	}
 	if open > 0 {
 		c.add("stop.connection_left_open:connected", fmt.Sprintf("%d of %d connections that had completed CONNECT were not closed by Stop", open, len(c.conns)), nil)
@@ -484,7 +575,7 @@ func Run(r *monitor.Run) {
 	n := r.Pick(4, 40)
 	procs := []int{16, 2, 4, 1}
 	for i := 0; i < n; i++ {
-		p := Params{Seed: rng.Int63n(1 << 40), Clients: 20 + rng.Intn(r.Pick(20, 40)), Ops: r.Pick(60, 250), Procs: procs[i%len(procs)], HalfOpen: i%2 == 1, HeavyYield: i%3 == 0}
+		p := Params{Seed: rng.Int63n(1 << 40), Clients: 20 + rng.Intn(r.Pick(20, 40)), Ops: r.Pick(60, 250), Procs: procs[i%len(procs)], HalfOpen: i%2 == 1, HeavyYield: i%3 == 0, Stalled: []int{2, 0, 1}[i%3]}
 		runChaos(r, p)
 		if i == 0 {
 			r.Sample(p)
